@@ -169,8 +169,8 @@ def _impersonate_options(
             # FIXME: eol+n & opt+ not handled
 
         elif option == TCPOption.SACK:
-            # Randomize SAck value in range 10 <= val <= 34
-            sack_len = random.choice(range(10, 34 + 1, 8))
+            # Randomize SAck: 1 to 4 blocks of 8 bytes, option length 10 <= len <= 34
+            sack_len = random.choice(range(8, 32 + 1, 8))
             impersonated_option = ("SAck", b"\x00" * sack_len)
 
         if impersonated_option is not None:
